@@ -11,7 +11,7 @@ from .. import sym as S
 from ..catalog import code_specs, build_code, cfg, gf2_rank
 from ..common import Check, Tally, ob, tier, replay_main, TIER
 from ..engine import fresh_bits, elems, from_arr, SymTensor
-from ..harness import (sym_paths, differs, all_zero, decide, reachable, model_bits, real_bits, concolic,
+from ..harness import (dual_certificate, sym_paths, differs, all_zero, decide, reachable, model_bits, real_bits, concolic,
                        to_int_matrix, is_binary_matrix, zor, zand)
 from ..sym import NotEncodable
 
@@ -175,6 +175,13 @@ def clauses(enc, config, tl, only=None):
             x, sx = elems(R["x"]), elems(R["sx"])
             neg = z3.And(all_zero(sx), zor([S.zbool(xor_dot(x, h)) for h in Href])) if Href else z3.BoolVal(False)
             st, model = decide(ctx, neg)
+            how = "direct"
+            if st == "inconclusive" and Href:
+                # CDCL has no Gaussian elimination: for long XOR chains (n >= 63) the direct query can time out.
+                # Fall back to one GF(2) Farkas query per reference row (see harness.dual_certificate).
+                certs = [dual_certificate(sx, xor_dot(x, h), tally=tl)[0] for h in Href]
+                if all(c is True for c in certs):
+                    st, how = "holds", f"dual certificates ({len(Href)} sat queries) after the direct query returned unknown"
             if st == "violated":
                 xb = model_bits(model, "x", n)
                 with _disable_current_modes():
@@ -186,7 +193,7 @@ def clauses(enc, config, tl, only=None):
                 rec("zero-syndrome=>codeword", st, what=f"non-codeword x={xb} has an all-zero syndrome (rank of published H = {rkH}, needs n-k = {n - k})",
                     witness={"x": xb}, replay={"reproduced": rep})
             else:
-                rec("zero-syndrome=>codeword", st, sample=dict(query="exists x in {0,1}^n : syndrome(x)=0 and Href.x != 0", n=n, rows_Href=len(Href), result=st))
+                rec("zero-syndrome=>codeword", st, sample=dict(query="exists x in {0,1}^n : syndrome(x)=0 and Href.x != 0", n=n, rows_Href=len(Href), result=st, decided_by=how))
     # 5. rank statement as a ground corollary, reported separately so that a defect is localised
     if rkH != n - k:
         rec("rank(H)=n-k", "violated", what=f"published check matrix has rank {rkH}, expected n-k = {n - k}", witness={"rank": rkH, "n": n, "k": k}, replay={"reproduced": True})
